@@ -84,51 +84,83 @@ func runC17(c *core.Ctx) {
 		o.Shape(nNodes >= 1 && nRoots >= 1, "expected non-root and root node literals, found %d/%d", nNodes, nRoots)
 	})
 	c.Check("C17-R1", pk+".finish/root-only", "the reference handed out as the tree root was produced by a root writer (a node written as a non-root carries /Limits and must not become the root)", func(o *core.Ob) {
-		fn := c.Prog.Func(pk, "(*treeWriter).finish")
-		g := fn.Graph()
-		info := fn.Info()
+		finish := c.Prog.Func(pk, "(*treeWriter).finish")
+		// finish and the methods of the writer it hands its result over to (return w.finishFromTail()):
+		// their returns are the returns of finish
+		chain := []*core.Func{finish}
+		inChain := map[*core.Func]bool{finish: true}
+		for i := 0; i < len(chain) && i < 4; i++ {
+			f := chain[i]
+			for _, r := range f.Graph().Returns() {
+				rs := r.AST.(*ast.ReturnStmt)
+				if len(rs.Results) != 1 {
+					continue
+				}
+				call, ok := ast.Unparen(rs.Results[0]).(*ast.CallExpr)
+				if !ok || strings.Contains(core.CalleeKey(f.Info(), call), "writeRoot") {
+					continue
+				}
+				if callee := core.Callee(f.Info(), call); callee != nil && callee.Pkg() == f.Obj.Pkg() {
+					if cf := c.Prog.FuncOf(callee.Origin()); cf != nil && cf.Decl.Body != nil && !inChain[cf] && strings.Contains(cf.Key, "treeWriter") {
+						inChain[cf] = true
+						chain = append(chain, cf)
+					}
+				}
+			}
+		}
 		n := 0
-		for _, r := range g.Returns() {
-			rs := r.AST.(*ast.ReturnStmt)
-			src := c.Prog.Src(rs)
-			o.At(fn.Site(rs, src))
-			if len(rs.Results) == 1 {
-				call, ok := rs.Results[0].(*ast.CallExpr)
-				o.Require(ok && strings.Contains(core.CalleeKey(info, call), "writeRoot"), "finish returns %s", src)
-				n++
-				continue
-			}
-			if !core.IsNil(info, rs.Results[1]) {
-				continue
-			}
-			if k, ok := core.IntConst(info, rs.Results[0]); ok && k == 0 {
-				continue
-			}
-			// the only other admissible form: the already-root node when its depth is zero is excluded above;
-			// a node reference may be returned only under the negation of `depth > 0`, i.e. never for a merged node
-			ok := g.GuardedBy(r, func(a core.Atom) bool {
-				return a.Neg && strings.Contains(strings.ReplaceAll(core.ExprStr(a.Expr), " ", ""), "root.depth>0")
-			})
-			if !ok {
-				// any other way of knowing that the node's depth is not positive
-				var depthSel ast.Expr
-				if sel, isSel := ast.Unparen(rs.Results[0]).(*ast.SelectorExpr); isSel {
-					base := core.ObjOf(info, sel.X)
-					ast.Inspect(fn.Decl.Body, func(n ast.Node) bool {
-						if s2, ok := n.(*ast.SelectorExpr); ok && s2.Sel.Name == "depth" && base != nil && core.ObjOf(info, s2.X) == base {
-							depthSel = s2
+		for _, fn := range chain {
+			g := fn.Graph()
+			info := fn.Info()
+			for _, r := range g.Returns() {
+				rs := r.AST.(*ast.ReturnStmt)
+				src := c.Prog.Src(rs)
+				o.At(fn.Site(rs, src))
+				if len(rs.Results) == 1 {
+					call, ok := rs.Results[0].(*ast.CallExpr)
+					if ok {
+						if callee := core.Callee(info, call); callee != nil {
+							if cf := c.Prog.FuncOf(callee.Origin()); cf != nil && inChain[cf] {
+								continue // analysed as part of the chain
+							}
 						}
-						return true
-					})
+					}
+					o.Require(ok && strings.Contains(core.CalleeKey(info, call), "writeRoot"), "finish returns %s", src)
+					n++
+					continue
 				}
-				if depthSel != nil {
-					pos := &ast.BinaryExpr{X: depthSel, Op: token.GTR, Y: &ast.BasicLit{Kind: token.INT, Value: "0"}}
-					holds, _, decided := c.Prog.Implies(core.Formula{Fn: fn, Atoms: g.DominatingAtoms(r)}, core.Formula{Fn: fn, Atoms: []core.Atom{{Expr: pos, Neg: true}}})
-					ok = decided && holds
+				if !core.IsNil(info, rs.Results[1]) {
+					continue
 				}
-			}
-			if !ok {
-				o.FailAt(fn.Site(rs, ""), "finish returns the node reference %s, which was written as a non-root node (with /Limits)", core.ExprStr(rs.Results[0]))
+				if k, ok := core.IntConst(info, rs.Results[0]); ok && k == 0 {
+					continue
+				}
+				// the only other admissible form: the already-root node when its depth is zero is excluded above;
+				// a node reference may be returned only under the negation of `depth > 0`, i.e. never for a merged node
+				ok := g.GuardedBy(r, func(a core.Atom) bool {
+					return a.Neg && strings.Contains(strings.ReplaceAll(core.ExprStr(a.Expr), " ", ""), "root.depth>0")
+				})
+				if !ok {
+					// any other way of knowing that the node's depth is not positive
+					var depthSel ast.Expr
+					if sel, isSel := ast.Unparen(rs.Results[0]).(*ast.SelectorExpr); isSel {
+						base := core.ObjOf(info, sel.X)
+						ast.Inspect(fn.Decl.Body, func(n ast.Node) bool {
+							if s2, ok := n.(*ast.SelectorExpr); ok && s2.Sel.Name == "depth" && base != nil && core.ObjOf(info, s2.X) == base {
+								depthSel = s2
+							}
+							return true
+						})
+					}
+					if depthSel != nil {
+						pos := &ast.BinaryExpr{X: depthSel, Op: token.GTR, Y: &ast.BasicLit{Kind: token.INT, Value: "0"}}
+						holds, _, decided := c.Prog.Implies(core.Formula{Fn: fn, Atoms: g.DominatingAtoms(r)}, core.Formula{Fn: fn, Atoms: []core.Atom{{Expr: pos, Neg: true}}})
+						ok = decided && holds
+					}
+				}
+				if !ok {
+					o.FailAt(fn.Site(rs, ""), "finish returns the node reference %s, which was written as a non-root node (with /Limits)", core.ExprStr(rs.Results[0]))
+				}
 			}
 		}
 		o.Shape(n >= 1, "expected the root writers to be used, found %d", n)
@@ -197,84 +229,92 @@ func runC17(c *core.Ctx) {
 			}
 		}
 		leafWrapped, mergedWrapped := false, false
-		var rootReturns []*core.V
-		for _, r := range g.Returns() {
-			rs := r.AST.(*ast.ReturnStmt)
-			if len(rs.Results) != 1 {
-				continue
-			}
-			call, ok := ast.Unparen(rs.Results[0]).(*ast.CallExpr)
-			if !ok {
-				continue
-			}
-			callee := core.Callee(info, call)
-			if callee == nil || !rootWriters[callee.Origin()] {
-				continue
-			}
-			rootReturns = append(rootReturns, r)
-		}
-		// the root may also be written in place: a return that is dominated by a
-		// Put of a Limits-free node literal in finish itself
-		for _, r := range g.Returns() {
-			rs := r.AST.(*ast.ReturnStmt)
-			if len(rs.Results) != 2 {
-				continue
-			}
-			for _, pv := range callVerticesSuffix(g, ".Put") {
-				if len(pv.Call.Args) != 2 || !g.Dominates(pv.V, r) {
+		anyRootReturns := false
+		for _, fn := range chain {
+			g := fn.Graph()
+			info := fn.Info()
+			var rootReturns []*core.V
+			for _, r := range g.Returns() {
+				rs := r.AST.(*ast.ReturnStmt)
+				if len(rs.Results) != 1 {
 					continue
 				}
-				free := true
-				found := false
-				for _, vc := range valueCases(g, pv.V, pv.Call.Args[1], 2) {
-					cl, ok := ast.Unparen(vc.Expr).(*ast.CompositeLit)
-					if !ok {
-						free = false
+				call, ok := ast.Unparen(rs.Results[0]).(*ast.CallExpr)
+				if !ok {
+					continue
+				}
+				callee := core.Callee(info, call)
+				if callee == nil || !rootWriters[callee.Origin()] {
+					continue
+				}
+				rootReturns = append(rootReturns, r)
+			}
+			// the root may also be written in place: a return that is dominated by a
+			// Put of a Limits-free node literal in finish itself
+			for _, r := range g.Returns() {
+				rs := r.AST.(*ast.ReturnStmt)
+				if len(rs.Results) != 2 {
+					continue
+				}
+				for _, pv := range callVerticesSuffix(g, ".Put") {
+					if len(pv.Call.Args) != 2 || !g.Dominates(pv.V, r) {
 						continue
 					}
-					found = true
-					for _, el := range cl.Elts {
-						if kv, ok := el.(*ast.KeyValueExpr); ok {
-							if k, isS := core.StringConst(info, kv.Key); isS && k == "Limits" {
-								free = false
+					free := true
+					found := false
+					for _, vc := range valueCases(g, pv.V, pv.Call.Args[1], 2) {
+						cl, ok := ast.Unparen(vc.Expr).(*ast.CompositeLit)
+						if !ok {
+							free = false
+							continue
+						}
+						found = true
+						for _, el := range cl.Elts {
+							if kv, ok := el.(*ast.KeyValueExpr); ok {
+								if k, isS := core.StringConst(info, kv.Key); isS && k == "Limits" {
+									free = false
+								}
 							}
 						}
 					}
+					// the nearest Put: no other Put between it and the return
+					if found && free {
+						rootReturns = append(rootReturns, r)
+					}
 				}
-				// the nearest Put: no other Put between it and the return
-				if found && free {
-					rootReturns = append(rootReturns, r)
+			}
+			for _, r := range rootReturns {
+				rs := r.AST.(*ast.ReturnStmt)
+				if g.GuardedBy(r, func(a core.Atom) bool {
+					cmp, ok := a.AsCmp()
+					if !ok {
+						return false
+					}
+					_, name, isSel := selName(cmp.L)
+					k, isK := core.IntConst(info, cmp.R)
+					return isSel && name == "depth" && isK && k == 0 && cmp.Op == token.EQL
+				}) {
+					leafWrapped = true
+					o.At(fn.Site(rs, "a single completed leaf is wrapped in a root"))
 				}
+				if g.GuardedBy(r, func(a core.Atom) bool {
+					cmp, ok := a.AsCmp()
+					if !ok {
+						return false
+					}
+					_, name, isSel := selName(cmp.L)
+					k, isK := core.IntConst(info, cmp.R)
+					return isSel && name == "depth" && isK && ((k == 0 && (cmp.Op == token.GTR || cmp.Op == token.NEQ)) || (k == 1 && cmp.Op == token.GEQ))
+				}) {
+					mergedWrapped = true
+					o.At(fn.Site(rs, "a merged node is wrapped in a root"))
+				}
+			}
+			if len(rootReturns) > 0 {
+				anyRootReturns = true
 			}
 		}
-		for _, r := range rootReturns {
-			rs := r.AST.(*ast.ReturnStmt)
-			if g.GuardedBy(r, func(a core.Atom) bool {
-				cmp, ok := a.AsCmp()
-				if !ok {
-					return false
-				}
-				_, name, isSel := selName(cmp.L)
-				k, isK := core.IntConst(info, cmp.R)
-				return isSel && name == "depth" && isK && k == 0 && cmp.Op == token.EQL
-			}) {
-				leafWrapped = true
-				o.At(fn.Site(rs, "a single completed leaf is wrapped in a root"))
-			}
-			if g.GuardedBy(r, func(a core.Atom) bool {
-				cmp, ok := a.AsCmp()
-				if !ok {
-					return false
-				}
-				_, name, isSel := selName(cmp.L)
-				k, isK := core.IntConst(info, cmp.R)
-				return isSel && name == "depth" && isK && ((k == 0 && (cmp.Op == token.GTR || cmp.Op == token.NEQ)) || (k == 1 && cmp.Op == token.GEQ))
-			}) {
-				mergedWrapped = true
-				o.At(fn.Site(rs, "a merged node is wrapped in a root"))
-			}
-		}
-		if len(rootWriters) == 0 && len(rootReturns) == 0 {
+		if len(rootWriters) == 0 && !anyRootReturns {
 			o.Unrec("no root writer (a function whose node literals all lack /Limits) was found")
 		} else {
 			o.Require(leafWrapped, "a single completed leaf (depth 0, written with /Limits) is not wrapped in a Limits-free root: a tree with exactly one full leaf gets a root with /Limits")
@@ -459,7 +499,7 @@ func runC17(c *core.Ctx) {
 		}
 		if buf == nil {
 			o.Count(1)
-			o.Fail("addEntry does not buffer the entry")
+			o.Unrec("no assignment to the pending leaf was found in addEntry (the buffer is kept in another form): where the entry is buffered is not located")
 			return
 		}
 		info := fn.Info()
@@ -920,6 +960,15 @@ func runC17(c *core.Ctx) {
 				if k, isK := core.IntConst(info, rs.Results[0]); isK && k == 0 {
 					o.At(fn.Site(rs, "empty"))
 					ok = g.GuardedBy(r, func(a core.Atom) bool {
+						// (also as a case of a switch over the length)
+						if cmp, isCmp := a.AsCmp(); isCmp && cmp.Op == token.EQL {
+							if k, isK := core.IntConst(info, cmp.R); isK && k == 0 {
+								l := strings.ReplaceAll(core.ExprStr(cmp.L), " ", "")
+								if l == "len(w.tail)" || resolveText(g, r, cmp.L, 3) == "len(w.tail)" {
+									return true
+								}
+							}
+						}
 						if a.Neg || a.Tag != nil {
 							return false
 						}
